@@ -3,6 +3,7 @@ C03 — Results are independent of batch size, device count and padding.
 -/
 import MdpaxV.Props.C02
 import MdpaxV.Props.C08
+import MdpaxV.Props.C01
 set_option linter.unusedSectionVars false
 namespace MdpaxV.C03
 open MdpaxV
@@ -91,6 +92,23 @@ theorem pi_solve_layout_indep (P : Problem α) (c c' : BatchCfg) (h : C02.Valid 
   refine ⟨by simp only [piSolve, hs], ?_⟩
   cases initPol <;>
     simp only [piInit, initValues_layout_indep P c c' h h' 0 0, policy_layout_indep P c c' h h' γ _ 0 0]
+
+/-- **the semi-asynchronous solver, whose sweep legitimately depends on the partition, still meets its error bound for every
+    partition**: for *every* valid layout `c` (batch size × device count × padding), every per-sweep permutation sequence and
+    every resolution of padded writes, a `solve()` call that reports convergence under the max_diff test returns values within ε
+    of optimal and a policy within 2γε/(1−γ) of optimal.  (Restates `C01.semiasync_solve_near_optimal`, universally
+    quantified over the layout, next to the layout-independence theorems of the fixed-order solvers.) -/
+theorem semiasync_bound_every_partition (P : Problem α) (γ ε : α) :
+    ∀ (c : BatchCfg) (_S : C01.Setting P c γ) (_hw : C01.IdxWF P) (perms : Nat → Option (List Nat))
+      (_hperms : ∀ n, (orderOf' c.n (perms n)).Perm (List.range c.n)) (choose : Nat → Bool) (f k : Nat) (s : SState α)
+      (_hs : s.values.length = P.nS)
+      (_hc : (semiSolve P c γ (ε * (1 - γ) / γ) .maxDiff perms choose f k s).converged = true)
+      (pl : List Nat) (_hpl : (semiSolve P c γ (ε * (1 - γ) / γ) .maxDiff perms choose f k s).state.policy = some pl)
+      (W U : Fin P.nS → α) (_hW : Top P γ W = W) (_hU : Tpol P γ (C01.polFn P.nS pl) U = U) (i : Fin P.nS),
+      |toFn P.nS (semiSolve P c γ (ε * (1 - γ) / γ) .maxDiff perms choose f k s).state.values i - W i| < ε ∧
+      0 ≤ W i - U i ∧ W i - U i < 2 * γ * ε / (1 - γ) :=
+  fun c S hw perms hperms choose f k s hs hc pl hpl W U hW hU i =>
+    C01.semiasync_solve_near_optimal P c γ ε S hw perms hperms choose f k s hs hc pl hpl W U hW hU i
 
 /-- non-vacuity: two different valid layouts of the same 2-state problem (1 device × 2 batches of 1; 3 devices, 190 padding slots) -/
 example : C02.Valid C02.exP ⟨2, 1, 1⟩ ∧ C02.Valid C02.exP ⟨2, 1024, 3⟩ ∧ npad ⟨2, 1024, 3⟩ = 190 ∧ npad ⟨2, 1, 1⟩ = 0 := by decide
